@@ -11,16 +11,17 @@ import (
 )
 
 // Leaf kinds are rendered as strings:
-//   field:/iscp.Upstream.ID           load of a struct field (through a non-local object)
-//   elem:/iscp.Downstream.upstreamInfos   element of a map/slice stored in a field
-//   const:0 | const:"x" | const:nil
-//   global:/iscp.defaultPingTimeout
-//   call:/iscp.(*sequenceNumberGenerator).Next   result of a call (args are followed too unless opts.StopAtCalls)
-//   param:/iscp.(*Upstream).resume#newConn
-//   alloc:<type>                      fresh allocation (new/make/composite literal)
-//   func:<name>                       function value
-//   rangekey / rangeval:<container leaves>  key or value of a range over a container
-//   recv / select                      value received from a channel
+//
+//	field:/iscp.Upstream.ID           load of a struct field (through a non-local object)
+//	elem:/iscp.Downstream.upstreamInfos   element of a map/slice stored in a field
+//	const:0 | const:"x" | const:nil
+//	global:/iscp.defaultPingTimeout
+//	call:/iscp.(*sequenceNumberGenerator).Next   result of a call (args are followed too unless opts.StopAtCalls)
+//	param:/iscp.(*Upstream).resume#newConn
+//	alloc:<type>                      fresh allocation (new/make/composite literal)
+//	func:<name>                       function value
+//	rangekey / rangeval:<container leaves>  key or value of a range over a container
+//	recv / select                      value received from a channel
 type provOpts struct {
 	ParamDepth  int  // follow parameters into call sites (0 = stop at the parameter)
 	StopAtCalls bool // do not look into call arguments
@@ -459,8 +460,48 @@ func literalsOf(fn *ssa.Function, named *types.Named) []*Literal {
 			return
 		}
 		lit := &Literal{Alloc: a, Type: n, Fn: fn, Fields: map[string]ssa.Value{}, Stores: map[string]*ssa.Store{}, All: map[string][]*ssa.Store{}}
+		// aliases of the allocation inside fn: the Alloc itself and loads of a location (x.f) into which only this
+		// allocation is stored in fn — `x.f = &T{}; x.f.g = v` fills the literal through x.f
+		holders := []ssa.Value{a}
 		if refs := a.Referrers(); refs != nil {
 			for _, r := range *refs {
+				st, ok := r.(*ssa.Store)
+				if !ok || st.Val != ssa.Value(a) {
+					continue
+				}
+				key := pathOf(st.Addr).String()
+				if key == "?" {
+					continue
+				}
+				sole := true
+				var loads []ssa.Value
+				allInstrs(fn, func(x ssa.Instruction) {
+					switch y := x.(type) {
+					case *ssa.Store:
+						if y != st && pathOf(y.Addr).String() == key {
+							sole = false
+						}
+					case *ssa.UnOp:
+						if y.Op == token.MUL && y != nil && pathOf(y.X).String() == key {
+							if _, isFA := y.X.(*ssa.FieldAddr); isFA {
+								loads = append(loads, y)
+							}
+						}
+					}
+				})
+				if sole {
+					holders = append(holders, loads...)
+				}
+			}
+		}
+		var refsAll []ssa.Instruction
+		for _, h := range holders {
+			if rr := h.Referrers(); rr != nil {
+				refsAll = append(refsAll, *rr...)
+			}
+		}
+		{
+			for _, r := range refsAll {
 				fa, ok := r.(*ssa.FieldAddr)
 				if !ok {
 					continue
